@@ -658,8 +658,12 @@ pub fn plan(prop: &str, tier: Tier) -> Plan {
             if prop == "C11" && th {
                 s.push(scen("B22/P1/F1/R4", Cfg::new(0, 2, ("0.25", "0.25"), "R4"), menu_p1(2, 2), vec![]));
             }
-            if th || matches!(prop, "C01" | "C02") {
+            if matches!(prop, "C01" | "C02") {
                 s.extend(value_sweep(tier));
+            } else if th {
+                // (C11 and C17 do not judge amounts beyond what C01 / C02 / C04 / C09 judge on the same transitions: the
+                // several thousand thorough sweep scenarios are left to those four, here the quick sweep is explored)
+                s.extend(value_sweep(Tier::Quick));
             } else {
                 s.extend(pinned_sweep());
             }
